@@ -30,7 +30,7 @@ def main():
     specs = gen.c16_programs(t, seed())
     chk.extra["rule"] = "one evaluation = one operation after which state is inspected / one later call decided; distinct = distinct (history, position)"
     from vf import hooks
-    e1run.run_specs(chk, specs, KINDS + ("soft_guard", "soft_missing", "soft_priority", "soft_outcome"), opts={"check_idle": True, "hooks": [hooks.soft_hook]})
+    e1run.run_specs(chk, specs, KINDS + ("soft_guard", "soft_missing", "soft_priority", "soft_outcome", "list_facade"), opts={"check_idle": True, "check_lists": True, "hooks": [hooks.soft_hook]})
     chk.finish()
 
 
